@@ -163,23 +163,25 @@ theorem loadDef_keeps (w : World) (st : LState) (l : Nat) (r : Rq) :
       · split <;> simp
   · simp
 
+theorem accept_none (w : World) : w.accept none = none := rfl
+
 theorem loadDef_noCache (w : World) (st : LState) (l : Nat) (r : Rq) (h : st.noCache = true) :
     (loadDef w st l r).1 = w.fresh l r ∧ (loadDef w st l r).2.2 = st := by
-  unfold loadDef World.fresh
+  unfold loadDef World.fresh World.raw
   split
-  · split <;> simp_all
+  · split <;> simp_all [accept_none]
   · simp
 
 theorem loadDef_custom (w : World) (st : LState) (l : Nat) (r : Rq) (h : l ≠ 0) :
     (loadDef w st l r).1 = w.fresh l r ∧ (loadDef w st l r).2.2 = st := by
-  simp [loadDef, World.fresh, h]
+  simp [loadDef, World.fresh, World.raw, h]
 
 theorem loadDef_fresh (w : World) (st : LState) (r : Rq) (hc : CohF w st) :
     (loadDef w st 0 r).1 = w.fresh 0 r := by
-  unfold loadDef World.fresh
+  unfold loadDef World.fresh World.raw
   simp only [if_true]
   split
-  · simp_all
+  · simp_all [accept_none]
   · rename_i p hp
     split
     · simp_all
@@ -302,6 +304,40 @@ theorem getPipeline_cohP (w : World) (st : LState) (o l l' : Nat) (r : Rq) (hwok
       subst hll
       rw [hwok l' r' r hc.2, ← hfresh rfl, hx]
     · exact hp o' ho' r' v hv
+
+/-- a look-up that fails got a failure from its creator -/
+theorem getPipeline_none (w : World) (st : LState) (o l : Nat) (r : Rq)
+    (h : (getPipeline w st o l r).1 = none) : (loadDef w st l r).1 = none := by
+  unfold getPipeline at h
+  split at h
+  · exact h
+  · split at h
+    · cases h
+    · split at h
+      · cases h
+      · assumption
+
+/-- what `loadDef` writes to `file_cache`: nothing, or the parse of the file the request resolves to -/
+theorem loadDef_files_cases (w : World) (st : LState) (l : Nat) (r : Rq) :
+    (loadDef w st l r).2.2.files = st.files ∨
+    (l = 0 ∧ st.noCache = false ∧ ∃ p, w.resolve r = some p ∧ st.files p = none ∧
+      (loadDef w st l r).1 = w.accept (some (w.fileVer p)) ∧
+      (loadDef w st l r).2.2.files = fun p' => if p' = p then some (w.fileVer p) else st.files p') := by
+  unfold loadDef
+  split
+  · rename_i hl
+    split
+    · left; rfl
+    · rename_i p hp
+      split
+      · left; rfl
+      · rename_i hnc
+        split
+        · left; rfl
+        · rename_i hfp
+          right
+          exact ⟨hl, by simpa using hnc, p, hp, hfp, rfl, rfl⟩
+  · left; rfl
 
 /-! #### `run` -/
 
